@@ -43,6 +43,10 @@ func (e *CachedEntityBase[SnapT, OpT]) ResolveOperationWithMetadata(key string, 
 	// preallocate but empty
 	matching := make([]entity.Id, 0, 5)
 
+	// The metadata attached by set-metadata operations only exists on an operation once
+	// those have been applied: make sure the entity has been compiled before looking.
+	e.entity.Compile()
+
 	for _, op := range e.entity.Operations() {
 		opValue, ok := op.GetMetadata(key)
 		if ok && value == opValue {
